@@ -84,20 +84,25 @@ def _angles_ok(V, F, lo=8.0, hi=170.0):
 @st.composite
 def panels(draw, roof=None, fix_ears=False, min_size=1):
     """triangulated grid panel, optionally folded into a roof / zig-zag, jittered, relabelled"""
-    nu = draw(st.integers(max(min_size, 1), 5)); nv = draw(st.integers(max(min_size, 1), 4))
+    nu = draw(st.integers(max(min_size, 1), 6)); nv = draw(st.integers(max(min_size, 1), 5))
     bits = draw(st.lists(st.integers(0, 1), min_size=1, max_size=20))
     if roof is None:
         roof = draw(st.booleans())
     folds = []
     tags = ["base=panel"]
     slope = 1.0
-    if roof and nu >= 2:
+    if roof and fix_ears:
+        # a fold next to a corner quad always leaves a triangle with two constrained edges: keep folds 2 columns inside
+        nu = max(nu, 4); nv = max(nv, 2)
+        folds = [draw(st.integers(2, nu - 2))]
+    elif roof and nu >= 2:
         c = draw(st.integers(1, nu - 1))
         folds = [c]
         if nu >= 4 and draw(st.booleans()):
             c2 = draw(st.integers(1, nu - 1))
             if abs(c2 - c) >= 2:
                 folds.append(c2)
+    if folds:
         slope = draw(st.sampled_from([0.8, 1.0, 1.5]))
         tags.append("folds=%d" % len(folds))
     V, F = tri_grid(nu, nv, bits, folds, slope, fix_ears)
@@ -120,15 +125,14 @@ def panels(draw, roof=None, fix_ears=False, min_size=1):
 def good_delaunay(draw, height=True):
     s = draw(G.delaunay_disks(max_pts=25, ear_removals=3, height=height))
     if not _angles_ok(s["V"], s["F"]):
-        V, F = tri_grid(3, 3, [0, 1, 1], fix_ears=True)
-        s = {"V": V, "F": F, "tags": ["base=panel-fallback"] + G.tags_of(V, F)}
+        s = draw(panels(roof=False, fix_ears=True, min_size=3))
     return s
 
 
 def any_surface():
     return st.one_of(G.well_shaped_trisurf(max_faces=60, bordered=False), G.well_shaped_trisurf(max_faces=60, bordered=False, closed_bases=("icosa", "torus", "antiprism")),
-                     G.well_shaped_trisurf(max_faces=60, bordered=True), panels(), panels(min_size=2), panels(roof=True, min_size=2),
-                     panels(roof=True), good_delaunay())
+                     G.well_shaped_trisurf(max_faces=60, bordered=True), panels(), panels(min_size=3), panels(roof=True, min_size=3),
+                     panels(roof=True, min_size=2), panels(roof=False, min_size=3), good_delaunay())
 
 
 ORDERS = st.sampled_from([4, 2, 1, 3, 6, 5])
@@ -153,9 +157,10 @@ def field_case(draw):
 @st.composite
 def renumber_case(draw, elements):
     if elements == "faces":
-        s = draw(st.one_of(panels(fix_ears=True, min_size=2), panels(roof=True, fix_ears=True, min_size=2),
-                           G.well_shaped_trisurf(max_faces=60, bordered=True, open_bases=("cyl_u", "fan_closed", "grid")),
-                           good_delaunay()))
+        earfree = lambda s: G.n_ears(s["F"], len(s["V"])) == 0
+        s = draw(st.one_of(panels(fix_ears=True, min_size=3), panels(roof=True, fix_ears=True, min_size=3),
+                           G.well_shaped_trisurf(max_faces=60, bordered=True, open_bases=("cyl_u", "fan_closed")).filter(earfree),
+                           good_delaunay().filter(earfree)))
     else:
         s = draw(st.one_of(panels(), panels(roof=True), G.well_shaped_trisurf(max_faces=60, bordered=True), good_delaunay()))
     return {"V": s["V"], "F": s["F"], "tags": s["tags"], "elements": elements, "order": draw(ORDERS),
@@ -213,6 +218,20 @@ def vertex_angle_sums(V, F):
             u, w = q - p, r - p
             s[f[k]] += math.atan2(np.linalg.norm(np.cross(u, w)), float(np.dot(u, w)))
     return s
+
+
+def min_vertex_normal_norm(V, F):
+    """smallest norm of the angle-weighted sum of unit face normals around a vertex (0 = the vertex has no tangent plane)"""
+    A = np.array(V)
+    N = face_normals(V, F)
+    acc = np.zeros((len(V), 3))
+    for iF, f in enumerate(F):
+        for k in range(3):
+            p, q, r = A[f[k]], A[f[(k + 1) % 3]], A[f[(k + 2) % 3]]
+            u, w = q - p, r - p
+            acc[f[k]] += math.atan2(np.linalg.norm(np.cross(u, w)), float(np.dot(u, w))) * N[iF]
+    used = sorted(set(v for f in F for v in f))
+    return float(np.min(np.linalg.norm(acc[used], axis=1)))
 
 
 def dense(M_):
@@ -300,6 +319,9 @@ def fn_field(case, ctx):
     elements = case["elements"]
     n_el = nV if elements == "vertices" else nF
     bordered = len(ref.border_edges()) > 0
+    if elements == "vertices" and min_vertex_normal_norm(V, F) < 1e-3:
+        ctx.discard("a vertex without tangent plane (incident face normals cancel)")
+        return
     mesh = surface_from(V, F)
 
     ok, ff = ctx.call("construct", make_ff, case, mesh)
@@ -339,6 +361,17 @@ def fn_field(case, ctx):
         ctx.check(float(np.max(np.abs(L - L.conj().T))) <= 1e-12 * sc, "laplacian-not-hermitian",
                   f"max |L - L^H| = {float(np.max(np.abs(L - L.conj().T))):.3e} (scale {sc:.3g})")
 
+    # harness-side replica of the documented scheme (asserted only for n_smooth = 0; otherwise used for exemptions)
+    xs = cond = None
+    if L is not None:
+        xs, cond = replicate_solve(L, A, free, fixed, var0, int(case["n_smooth"]), float(case["alpha"]))
+        if not np.isfinite(cond) or cond > 1e12:
+            # negative cotangent weights of a non-Delaunay mesh (or an attach weight hitting an eigenvalue) can make the
+            # system exactly singular: no solution is defined, nothing to assert
+            ctx.discard("singular linear system (cond > 1e12)")
+            ctx.label("singular-system")
+            return
+
     ok, _ = ctx.call("run", ff.run)
     if not ok: return
     if not ctx.check(hasattr(ff.var, "shape") and tuple(np.shape(ff.var)) == (n_el,), "var-shape",
@@ -348,11 +381,6 @@ def fn_field(case, ctx):
     if not ctx.check(bool(np.all(np.isfinite(var.real)) and np.all(np.isfinite(var.imag))), "var-not-finite",
                      f"var has non-finite entries at {np.where(~np.isfinite(np.abs(var)))[0][:8].tolist()}"):
         return
-
-    # harness-side replica of the documented scheme (only used for exemptions when n_smooth > 0)
-    xs = cond = None
-    if L is not None:
-        xs, cond = replicate_solve(L, A, free, fixed, var0, int(case["n_smooth"]), float(case["alpha"]))
 
     # (1) unit modulus
     mod = np.abs(var)
@@ -477,7 +505,7 @@ def constraint_well_posed(case, ref, ctx):
         ang = vertex_angle_sums(V, F)
         for v in range(len(V)):
             t = ang[v] * order / (2 * math.pi)
-            if abs(ang[v] - 2 * math.pi / order) < 1e-6 or abs((t % 1.0) - 0.5) < 1e-6:
+            if t >= 1 - 1e-6 and abs((t % 1.0) - 0.5) < 1e-6:
                 return "vertex angle at a rounding tie of the corner detector"
     return None
 
@@ -526,6 +554,11 @@ def edge_measure(case, r, V, F, which):
     return out
 
 
+def _discard(ctx, why):
+    ctx.discard(why)
+    ctx.label("discarded", "discard:" + why)
+
+
 def fn_renumber(case, ctx):
     ref = check_surface(case)
     V, F = case["V"], case["F"]
@@ -535,19 +568,20 @@ def fn_renumber(case, ctx):
         raise AssertionError("renumbering sub-check needs a bordered surface")
     V2, F2, perm = G.relabel(V, F, int(case["perm_seed"]), do_vperm=True, do_fperm=False, do_rot=True)
     why = constraint_well_posed(case, ref, ctx)
+    if elements == "vertices" and min_vertex_normal_norm(V, F) < 1e-3:
+        ctx.discard("a vertex without tangent plane (incident face normals cancel)")
+        return
     r1 = run_field(case, V, F, ctx, "original")
     if r1 is None: return
     common_labels(case, ctx, ref, len(r1["free"]))
     if why is not None:
-        ctx.discard(why)
-        ctx.label("discarded")
+        _discard(ctx, why)
         return
     # every face owns at most one constrained edge (border or feature): otherwise its constraint is ambiguous
     if elements == "faces":
         for f in F:
             if sum(1 for k in range(3) if key(f[k], f[(k + 1) % 3]) in r1["fe"]) >= 2:
-                ctx.discard("face with two constrained edges")
-                ctx.label("discarded")
+                _discard(ctx, "face with two constrained edges")
                 return
     else:
         # a (nearly) cancelling sum of edge constraints at a vertex is decided by summation order
@@ -570,8 +604,7 @@ def fn_renumber(case, ctx):
             for k, t in enumerate(terms):
                 part += t
                 if abs(part) < 1e-3:
-                    ctx.discard("cancelling constraint sum at a vertex")
-                    ctx.label("discarded")
+                    _discard(ctx, "cancelling constraint sum at a vertex")
                     return
     r2 = run_field(case, V2, F2, ctx, "renumbered")
     if r2 is None: return
@@ -581,12 +614,10 @@ def fn_renumber(case, ctx):
         return
     for r in (r1, r2):
         if r["xs"] is None and r["fixed"] and r["free"] or (r["cond"] is not None and r["cond"] > COND_MAX):
-            ctx.discard("linear system ill-conditioned (cond > 1e6)")
-            ctx.label("discarded")
+            _discard(ctx, "linear system ill-conditioned (cond > 1e6)")
             return
         if r["xs"] is not None and any(float(np.min(np.abs(x))) < 1e-4 for x in r["xs"] if x.size):
-            ctx.discard("un-normalised value below 1e-4")
-            ctx.label("discarded")
+            _discard(ctx, "un-normalised value below 1e-4")
             return
     ctx.label("compared")
     for which, sig in (("var0", "constraints-depend-on-numbering"), ("var", "field-depends-on-numbering")):
@@ -620,10 +651,18 @@ def fn_laplacian(case, ctx):
     nV, nF = len(V), len(F)
     order = int(case["order"])
     cotan = bool(case["cotan"])
+    planar = bool(case["planar"])
+    if planar:
+        # an edge flip in a non-convex quad folds the sheet over: "planar" means embedded in the plane (one orientation)
+        A3 = np.array(V)
+        sa = [float(np.cross(A3[f[1]] - A3[f[0]], A3[f[2]] - A3[f[0]])[2]) for f in F]
+        if not (all(x > 1e-9 for x in sa) or all(x < -1e-9 for x in sa)):
+            planar = False
+            ctx.label("folded-planar")
     for t in case.get("tags", []):
         if t.startswith("base=") or t in ("closed", "bordered"):
             ctx.label(t)
-    ctx.label("planar=%s" % case["planar"], "order=%d" % order, "cotan=%s" % cotan)
+    ctx.label("planar=%s" % planar, "order=%d" % order, "cotan=%s" % cotan)
     has_inner = any(not ref.edge_on_border(*e) for e in ref.uedges)
     ctx.nontrivial(has_inner and order != 4)
     bv = set(ref.border_vertices())
@@ -651,7 +690,7 @@ def fn_laplacian(case, ctx):
         i, j = np.unravel_index(int(np.argmax(d)), d.shape)
         ctx.check(float(d[i, j]) <= 1e-9 * sc, "laplacian-moduli:" + el,
                   f"|L_conn[{i},{j}]| = {abs(Lc[i, j])!r} but |L_scalar[{i},{j}]| = {abs(Ls[i, j])!r} (order {order}, cotan {cotan})")
-        if not case["planar"]:
+        if not planar:
             continue
         # flat connection classes: the operator is the scalar one
         ok, fconn = ctx.call("flat-connection:" + el, (C.FlatConnectionVertices if el == "vertices" else C.FlatConnectionFaces), mesh)
@@ -723,11 +762,12 @@ def self_test():
 
 
 SUBCHECKS = [
-    SubCheck("field", field_case(), fn_field, quick=150, thorough=1000),
-    SubCheck("renumber_vertices", renumber_case("vertices"), fn_renumber, quick=32, thorough=200),
-    SubCheck("renumber_faces", renumber_case("faces"), fn_renumber, quick=32, thorough=200),
-    SubCheck("laplacian", laplacian_case(), fn_laplacian, quick=64, thorough=300),
+    SubCheck("field", field_case(), fn_field, quick=800, thorough=5000),
+    SubCheck("renumber_vertices", renumber_case("vertices"), fn_renumber, quick=160, thorough=1000),
+    SubCheck("renumber_faces", renumber_case("faces"), fn_renumber, quick=160, thorough=1000),
+    SubCheck("laplacian", laplacian_case(), fn_laplacian, quick=240, thorough=1200),
 ]
+
 
 def kf_smooth_normals_crease_numbering(case, violation):
     """Vertex field, smooth_normals=True, even order, features on, an *interior* vertex on a sharp crease: the constraint there
